@@ -63,8 +63,15 @@ func scenarioC03(r *Run) {
 		used[n] = true
 		table = append(table, n)
 	}
+	// in one run of three the channel targets are given by host name (one host, a port per channel) instead of
+	// as IP literals: what a channel name reaches is the address configured for it, port included
+	thost := TargetIP
+	if c.Chance(1, 3, "targets-by-host-name") {
+		thost = "target.test"
+		r.Count("worlds_with_targets_by_host_name")
+	}
 	for i, n := range table {
-		cfg.Channels = append(cfg.Channels, ChanCfg{Name: n, Target: fmt.Sprintf("tcp://%s:%d", TargetIP, 7001+i)})
+		cfg.Channels = append(cfg.Channels, ChanCfg{Name: n, Target: fmt.Sprintf("tcp://%s:%d", thost, 7001+i)})
 	}
 	// allow-list of the endpoint: none, or a non-empty subset
 	var allow []string
